@@ -284,7 +284,7 @@ int main(void) {
       if (!h_mpi) st = ref_mpi_create(&h_mpi);
       if (REF_SUCCESS == st) st = ref_grid_create(&grid, h_mpi);
       for (i = 0; REF_SUCCESS == st && i < n; i++) {
-        st = ref_node_add(ref_grid_node(grid), i, &node);
+        st = ref_node_add(ref_grid_node(grid), (REF_GLOB)(3 * i + 5), &node);
         if (REF_SUCCESS != st) break;
         for (k = 0; k < 3; k++) ref_node_xyz(ref_grid_node(grid), k, node) = h_f(h_w[1 + 3 * i + k]);
         nodes[n - 1 - i] = node; /* index list in reverse order of creation */
